@@ -21,7 +21,7 @@ class ConclusionSelector(LogicalOperator, ABC):
     Tracks whether certain conclusion-combinations were already produced so
     they are not duplicated across truth branches.
     """
-    concluded_before: Dict[bool, SeenSet] = field(default_factory=lambda: {True: SeenSet(), False: SeenSet()},
+    concluded_before: Dict[bool, Dict[typing.FrozenSet[int], SeenSet]] = field(default_factory=lambda: {True: {}, False: {}},
                                                   init=False)
 
     def _caching_enabled_(self) -> bool:
@@ -37,20 +37,24 @@ class ConclusionSelector(LogicalOperator, ABC):
             vars_ = conclusion._unique_variables_.filter(lambda v: not isinstance(v.value, Literal))
             required_vars.update(vars_)
         required_output = {k: v for k, v in output.items() if k in required_vars}
-        if not self.concluded_before[not self._is_false_].check(required_output):
+        # per set of conclusions: two branches that conclude on the same variables (e.g. the same item with another
+        # constant) are different conclusions, one of them having been drawn does not make the other a duplicate.
+        concluded_before = self.concluded_before[not self._is_false_].setdefault(
+            frozenset(id(conclusion) for conclusion in conclusions), SeenSet())
+        if not concluded_before.check(required_output):
             self._conclusion_.update(conclusions)
-            self.concluded_before[not self._is_false_].add(required_output)
+            concluded_before.add(required_output)
 
     def _reset_only_my_cache_(self) -> None:
         super()._reset_only_my_cache_()
         # both are filled while an evaluation runs: which conclusion combinations were produced so far, and the
         # conclusions selected for the row being produced (left behind when the evaluation is abandoned at that row).
-        self.concluded_before = {True: SeenSet(), False: SeenSet()}
+        self.concluded_before = {True: {}, False: {}}
         self._conclusion_.clear()
 
     def _copy_expression_(self, postfix: str) -> SymbolicExpression:
         cp = super()._copy_expression_(postfix)
-        cp.concluded_before = {True: SeenSet(), False: SeenSet()}
+        cp.concluded_before = {True: {}, False: {}}
         return cp
 
     @property
